@@ -254,6 +254,27 @@ def cone(assertions, goal_terms):
     return [a for i, a in enumerate(assertions) if used[i]]
 
 
+def relevant_axioms(terms):
+    """Global axioms that share a symbol (transitively) with the given terms.  Dropping
+    the others is sound: they mention disjoint symbols and are satisfiable on their own
+    (checked once per run by the vacuity check)."""
+    want = set()
+    for t in terms:
+        want |= symbols(t)
+    ax = AXIOMS.terms()
+    syms = [symbols(a) for a in ax]
+    used = [False] * len(ax)
+    changed = True
+    while changed:
+        changed = False
+        for i in range(len(ax)):
+            if not used[i] and (syms[i] & want):
+                used[i] = True
+                want |= syms[i]
+                changed = True
+    return [a for i, a in enumerate(ax) if used[i]]
+
+
 def to_smt2(assertions):
     s = z3.Solver()
     for a in assertions:
